@@ -64,11 +64,13 @@ Fixpoint conv (f : fnode) : xn :=
 
 Definition conv_children (frag : list fnode) : list xn := merge_text (map conv frag).
 
-(** text-only replacement (what an attribute can hold) *)
+(** text-only replacement (what an attribute can hold: DOM Level 1 allows Text and
+    EntityReference children of an Attr, not CDATA sections, so a CDATA section in the
+    replacement of an attribute is refused) *)
 Fixpoint frag_text (frag : list fnode) : option str :=
   match frag with
   | [] => Some []
-  | FT s :: r | FCd s :: r => option_map (app s) (frag_text r)
+  | FT s :: r => option_map (app s) (frag_text r)
   | FR name :: r => match predefined name with
                     | Some c => option_map (cons c) (frag_text r)
                     | None => None
